@@ -627,6 +627,11 @@ func (vc *VC) enterLoop(fr *frame, li *loopInfo, st *State) *State {
 	}
 	vc.flushTyping(st)
 	// values of phis at the head were already made fresh
+	if fr.contract != nil {
+		for _, cl := range fr.contract.LoopAssume[li.ordinal] {
+			vc.assume(st, vc.evalClause(fr, st, cl, nil))
+		}
+	}
 	for _, cl := range invs {
 		vc.assume(st, vc.evalClause(fr, st, cl, nil))
 	}
@@ -736,9 +741,18 @@ func (vc *VC) closeLoop(fr *frame, li *loopInfo, st *State, head *State) {
 	invs, auto := vc.loopInvariants(fr, li)
 	vc.curLoopA = li.aEntry
 	defer func() { vc.curLoopA = nil }()
+	if fr.contract != nil {
+		// `loop k: assumes` holds at every arrival at the head, the one through the back edge included
+		for _, cl := range fr.contract.LoopAssume[li.ordinal] {
+			vc.assume(st, vc.evalClause(fr, st, cl, nil))
+		}
+	}
 	for _, cl := range invs {
 		g := vc.evalClause(fr, st, cl, nil)
 		vc.oblige(st, "inv.preserve", fmt.Sprintf("%sloop%d.%d", fr.prefix, li.ordinal, cl.Idx), "loop invariant is preserved: "+cl.Text, g, cl.Tags, li.head.Instrs[0].Pos(), false)
+		// assert-then-assume: a later invariant of the same loop is proved at the end of the body knowing the
+		// earlier ones there (each has its own obligation just above)
+		vc.assume(st, g)
 	}
 	for _, a := range auto {
 		vc.oblige(st, "inv.preserve", fmt.Sprintf("%sloop%d.auto.%s", fr.prefix, li.ordinal, a.name), "inferred loop invariant is preserved: "+a.text, a.eval(st), nil, token.NoPos, false)
